@@ -200,6 +200,9 @@ func BytesCap(name string, n, c int) []byte {
 
 func String(name string, n int) string { return string(bytesVal(name, n)) }
 
+// StringIn: a string of length n whose bytes all lie in [lo,hi].
+func StringIn(name string, n int, lo, hi byte) string { return string(bytesVal(name, n)) }
+
 func Assume(c bool) {
 	if !c {
 		panic(stop{"ASSUME-FAILED (replay diverged from the symbolic path)"})
